@@ -9,5 +9,5 @@ pub mod props;
 pub mod refsem;
 pub mod spec;
 
-pub use harness::{guard, my_err, my_err_any, my_err_t, Hijack, my_err_calls, my_err_g, my_err_generic, Ctx, MyErr, MyErrG, Nd, NotSend, Obs, Program, Tier};
+pub use harness::{guard, my_err, my_err_any, my_err_boxed, my_err_t, Hijack, my_err_calls, my_err_g, my_err_generic, Ctx, MyErr, MyErrG, Nd, NotSend, Obs, Program, Tier};
 pub const fn id<T>(t: T) -> T { t }
